@@ -1,4 +1,5 @@
 mod checks;
+mod codecs;
 mod engine;
 mod models;
 mod udpdrv;
@@ -8,6 +9,35 @@ use engine::{Ctx, Tier};
 fn usage() -> ! {
     eprintln!("usage: vcheck <Cxx> [--tier quick|thorough] [--seed N] [--replay FILE]");
     std::process::exit(2)
+}
+
+struct Entry {
+    id: &'static str,
+    level: &'static str,
+    rule: &'static str,
+    run: fn(&mut Ctx),
+    replay: fn(&str, &str, serde_json::Value) -> i32,
+}
+
+macro_rules! entry {
+    ($id:expr, $m:ident, $level:expr) => {
+        Entry {
+            id: $id,
+            level: $level,
+            rule: checks::$m::RULE,
+            run: checks::$m::run,
+            replay: checks::$m::replay,
+        }
+    };
+}
+
+fn table() -> Vec<Entry> {
+    vec![
+        entry!("C01", c01, "exploration"),
+        entry!("C02", c02, "exploration"),
+        entry!("C05", c05, "exploration"),
+        entry!("C13", c13, "exploration"),
+    ]
 }
 
 fn main() {
@@ -36,7 +66,10 @@ fn main() {
             }
             "--seed" => {
                 i += 1;
-                seed = args.get(i).and_then(|s| s.parse().ok()).unwrap_or_else(|| usage());
+                seed = args
+                    .get(i)
+                    .and_then(|s| s.parse().ok())
+                    .unwrap_or_else(|| usage());
             }
             "--replay" => {
                 i += 1;
@@ -54,22 +87,26 @@ fn main() {
         }
     }
 
-    if let Some(path) = replay {
-        let (sub, case) = engine::load_replay(&path);
-        let code = match prop.as_str() {
-            "C01" => checks::c01::replay(&path, &sub, case),
-            _ => usage(),
-        };
-        std::process::exit(code);
+    // internal sub-commands (child processes of fault-injection checks)
+    if prop.starts_with("--") {
+        std::process::exit(checks::child_main(&args[1..]));
     }
 
-    let code = match prop.as_str() {
-        "C01" => {
-            let mut ctx = Ctx::new("C01", tier, seed);
-            checks::c01::run(&mut ctx);
-            ctx.finish("exploration", checks::c01::RULE)
+    let table = table();
+    let entry = match table.iter().find(|e| e.id == prop) {
+        Some(e) => e,
+        None => {
+            eprintln!("unknown property {prop}");
+            usage()
         }
-        _ => usage(),
     };
-    std::process::exit(code);
+
+    if let Some(path) = replay {
+        let (sub, case) = engine::load_replay(&path);
+        std::process::exit((entry.replay)(&path, &sub, case));
+    }
+
+    let mut ctx = Ctx::new(entry.id, tier, seed);
+    (entry.run)(&mut ctx);
+    std::process::exit(ctx.finish(entry.level, entry.rule));
 }
